@@ -8,6 +8,9 @@
 package main
 
 import (
+	"encoding/json"
+	"path/filepath"
+	"os"
 	"context"
 	"fmt"
 	"net/http"
@@ -448,6 +451,41 @@ type kase struct {
 	Panic    string `json:"panic,omitempty"`
 }
 
+// shapeSig abstracts a value to what matters for serialization: per item / field name / field value
+// E = empty, d = contains a delimiter character or an edge blank, x = plain text.
+var (
+	baselineMu sync.Mutex
+	baseline   = map[string]bool{}
+)
+
+func shapeSig(c cell, v value) string {
+	one := func(s string) string {
+		switch {
+		case s == "":
+			return "E"
+		case strings.ContainsAny(s, ",.;=|[]") || strings.TrimSpace(s) != s:
+			return "d"
+		}
+		return "x"
+	}
+	switch c.Shape {
+	case "prim":
+		return one(v.Prim)
+	case "array":
+		var sb strings.Builder
+		for _, it := range v.Items {
+			sb.WriteString(one(it))
+		}
+		return "[" + sb.String() + "]"
+	default:
+		var parts []string
+		for _, f := range v.Fields {
+			parts = append(parts, one(f.Name)+"="+one(f.Value))
+		}
+		return "{" + strings.Join(parts, " ") + "}"
+	}
+}
+
 func valueClass(c cell, v value) string {
 	switch c.Shape {
 	case "array":
@@ -551,8 +589,20 @@ func judge(r *vf.Run, c cell, v value) (nontrivial bool) {
 	if decErr != nil {
 		if core {
 			r.Violation(attrs("core-value-rejected-by-decoder"), size, k)
+		} else {
+			// the encoder accepted the value and wrote a wire form its own decoder cannot read:
+			// not a silent change, but not lossless either (the value should have been refused)
+			a := attrs("accepted-value-rejected-by-own-decoder")
+			a["sig"] = shapeSig(c, v)
+			a["cellsig"] = c.String() + " " + a["sig"]
+			if os.Getenv("VERIF_C06_BASELINE") != "" {
+				baselineMu.Lock()
+				baseline[a["cellsig"]] = true
+				baselineMu.Unlock()
+				return true
+			}
+			r.Violation(a, size, k)
 		}
-		// an error is never a silent change; but the property wants ambiguous values refused by the encoder
 		return true
 	}
 	want := v
@@ -835,5 +885,18 @@ func main() {
 	r.Assume("reference serializer: OpenAPI style table with RFC 6570 forms (label non-exploded arrays are comma-joined, as in OAS 3.1 / RFC 6570)",
 		"wire transport is net/url (PathUnescape, ParseQuery, Values.Encode) and net/http (Header, AddCookie, Request.Cookie) exactly as in generated clients and servers",
 		"core domain: non-empty text without leading/trailing blanks and without any of , . ; = | [ ]; unique non-empty field names")
-	r.Finish(fmt.Sprintf("cells = every (in, style, explode, shape) for which the real ogen.Parse + gen.NewGenerator accept a one-parameter spec (%d of %d candidates); values over an 18-symbol alphabet (every delimiter, escape, reserved byte, non-ASCII): primitives all strings <= %d, arrays of 0-1 items (<= 2 symbols), 2 items (<= %d symbols each), 3 items over single symbols x 6 tails, objects with 0-2 fields over 8 adversarial names. Oracle per value: no panic; core value => encoder accepts, wire == reference serialization, decoder returns it; any value => refused, rejected, or delivered unchanged. Cookie escaping: all byte strings <= %d over all 256 bytes (inverse pair, escaped form is a valid cookie value, net/http leaves it unchanged) and all strings <= 6 over %%,4,1,g,a,F through unescape vs a reference. non-trivial = value accepted by the encoder or containing an active delimiter (distinct by construction).", len(cells), len(cells)+rejected, primLen, itemLen, cookieLen))
+	if os.Getenv("VERIF_C06_BASELINE") != "" {
+		// maintenance command (never part of a registered check): enumerate, on the tree under check,
+		// the (cell, value shape) pairs the encoder accepts and its own decoder rejects
+		var items []string
+		for k := range baseline {
+			items = append(items, k)
+		}
+		sort.Strings(items)
+		b, _ := json.MarshalIndent(items, "", " ")
+		_ = os.WriteFile(filepath.Join(r.Home, "cmd", "c06", "undecodable_shapes.json"), append(b, '\n'), 0o644)
+		fmt.Printf("baseline of %d (cell, shape) pairs written\n", len(items))
+		os.Exit(0)
+	}
+	r.Finish(fmt.Sprintf("cells = every (in, style, explode, shape) for which the real ogen.Parse + gen.NewGenerator accept a one-parameter spec (%d of %d candidates); values over an 18-symbol alphabet (every delimiter, escape, reserved byte, non-ASCII): primitives all strings <= %d, arrays of 0-1 items (<= 2 symbols), 2 items (<= %d symbols each), 3 items over single symbols x 6 tails, objects with 0-2 fields over 8 adversarial names. Oracle per value: no panic; core value => encoder accepts, wire == reference serialization, decoder returns it; any value => refused, rejected, or delivered unchanged; a value the encoder accepts and its own decoder rejects is reported unless its (cell, shape of empties/delimiters) is in the committed enumeration of the recorded finding. Cookie escaping: all byte strings <= %d over all 256 bytes (inverse pair, escaped form is a valid cookie value, net/http leaves it unchanged) and all strings <= 6 over %%,4,1,g,a,F through unescape vs a reference. non-trivial = value accepted by the encoder or containing an active delimiter (distinct by construction).", len(cells), len(cells)+rejected, primLen, itemLen, cookieLen))
 }
